@@ -153,6 +153,17 @@ def cache_only_effects(o, S):
     stats_monotone(o)
 
 
+def may_exhaust_stack(c, S):
+    """assumption A2 relaxed for the recursive traversals / searches: CPython may abort them with RecursionError at any call
+    (depth beyond the recursion limit).  Whatever was yielded or marked so far is unspecified; the graph is untouched.  A
+    caller that catches the error has to produce the specified result by other means."""
+    o = c.outcome(exc="RecursionError", label="recursion-limit")
+    o.o.may = True
+    cache_only_effects(o, S)
+    o.loose("dkeys", lambda new, old, *_: [])
+    return o
+
+
 def loop_cache_loose(extra_elems=None, local_containers=()):
     def c_elems(new, old, *_):
         return extra_elems(new) if extra_elems else []
@@ -491,6 +502,7 @@ def _(c):
         o.fact_schema(sch)
     o.fact(Mem(out, E.start))
     cache_only_effects(o, S)
+    may_exhaust_stack(c, S)
 
 
 @REG.loop("depthfirst._dft_recur", 0)
@@ -522,6 +534,7 @@ def _(c):
     o.out(T.flt(E.fr, dfo(E, E.start, EMPTY())))
     listing_set_facts(o, E, dfo(E, E.start, EMPTY()), E.start)
     cache_only_effects(o, S)
+    may_exhaust_stack(c, S)
 
 
 REG.contract("depthfirst.dft_recursive", FUNC_PARAMS, props=("C06", "C07", "C12"))(list_form("depthfirst.idft_recursive"))
@@ -714,6 +727,7 @@ def _(c):
     o.loose("dkeys", lambda new, old, *_: [Schema("visited-after-unsuccessful-search", (Ref,), lambda r: If(
         r == vis, Implies(res == NONE, new(r) == cat(V, dfo(E, E.start, V))), new(r) == old(r)), trigger=("dkeys",))])
     cache_only_effects(o, S)
+    may_exhaust_stack(c, S)
 
 
 @REG.loop("depthfirst._dfs_recur", 0)
@@ -747,3 +761,4 @@ def _(c):
     o = c.normal(when=And(Not(bad), Not(m0)), result=VRef(dfm(E.start, EMPTY()), "Vertex"), label="searched")
     cache_only_effects(o, S)
     o.loose("dkeys", lambda new, old, *_: [])
+    may_exhaust_stack(c, S)
